@@ -195,7 +195,14 @@ class JetRun:
         for k, v in self.inputs.items():
             rel.data[k] = realise(v, model, fd, self.spatial_axes)
         rel.freeze_data()
+        rel._symx = dict(model=model, fd=fd, axes=self.spatial_axes)     # lets `get` lambdas realise helper arguments
         return rel
+
+
+def float_field(rel, arr):
+    """a symbolic helper argument (..., 1,1,1) as the float field of the replay instance `rel`"""
+    sx = rel._symx
+    return realise(arr, sx['model'], sx['fd'], sx['axes'])
 
 
 def center(a):
